@@ -6,6 +6,10 @@ T: the site arithmetic of NlaIIIFragment.identify_site and CHICFragment.identify
    statement-level extractor below (fail closed on any statement outside the recognised shapes).
 K: simulated reads (independent Python ground-truth simulator) -> in-memory pysam reads -> real fragment
    classes; DS/RS/RZ/RR, qcfail, is_valid, site_location compared with the Coq model.
+Extension (Model/C09x.v, Proofs/C09x.v): NlaIIIFragment(no_overhang=True) with a reference handle and the
+   max_fragment_size rule of both classes.  T: gen_no_overhang / gen_size below.  K: make_xcases /
+   correspondence_x / search_x (own small contigs in a FASTA file read through CachedFastaNoHandle, placed mates,
+   max_fragment_size within 1 of the fragment size, every case mirrored, three command lines).
 """
 import ast, hashlib, itertools, json, os
 import fw, py2coq
@@ -332,6 +336,189 @@ def gen_site(kind, rel):
                              'coq': '%s_site_gen' % kind}
 
 
+# ------------------------------------------------------------------------------- no_overhang branch
+class RefTranslator(SiteTranslator):
+    """SiteTranslator + the idioms of the reference-lookup branch: string variables, `self.reference.fetch(
+    R1.reference_name, a, b)`, `<str>[::-1]`, `<str>.find(<literal>)`, `<literal> in <str>`"""
+
+    def __init__(self, **kw):
+        super().__init__(**kw)
+        self.str_env = {}
+
+    def sx(self, n):
+        if isinstance(n, ast.Name) and n.id in self.str_env:
+            return self.str_env[n.id]
+        if isinstance(n, ast.Constant) and isinstance(n.value, str):
+            return codes(n.value)
+        if isinstance(n, ast.Subscript) and isinstance(n.slice, ast.Slice) and n.slice.lower is None \
+                and n.slice.upper is None and n.slice.step is not None and ast.unparse(n.slice.step) == '-1':
+            return '(py_reversed %s)' % self.sx(n.value)
+        if isinstance(n, ast.Call) and ast.unparse(n.func) == 'self.reference.fetch' and not n.keywords \
+                and len(n.args) == 3 and ast.unparse(n.args[0]) == 'R1.reference_name':
+            return '(fetch %s %s)' % (self.z(n.args[1]), self.z(n.args[2]))
+        self.fail(n, 'string expression outside subset')
+
+    def is_strx(self, n):
+        try:
+            self.sx(n)
+            return True
+        except Untranslatable:
+            return False
+
+    def z(self, n):
+        if isinstance(n, ast.Call) and isinstance(n.func, ast.Attribute) and n.func.attr == 'find' and not n.keywords \
+                and len(n.args) == 1 and isinstance(n.args[0], ast.Constant) and isinstance(n.args[0].value, str):
+            return '(py_find %s %s)' % (codes(n.args[0].value), self.sx(n.func.value))
+        return super().z(n)
+
+    def b(self, n):
+        if isinstance(n, ast.Compare) and len(n.ops) == 1 and isinstance(n.ops[0], (ast.In, ast.NotIn)) \
+                and isinstance(n.left, ast.Constant) and isinstance(n.left.value, str):
+            e = '(py_contains %s %s)' % (codes(n.left.value), self.sx(n.comparators[0]))
+            return e if isinstance(n.ops[0], ast.In) else '(negb %s)' % e
+        return super().b(n)
+
+
+class RefExtractor:
+    """symbolic execution of the body of `if self.no_overhang:` in NlaIIIFragment.identify_site.
+    Variables: integers (inlined), one optional integer (None | int: the site), strings (fetched windows)."""
+    ENV = {'R1.is_reverse': 'is_reverse', 'R1.reference_start': 'reference_start', 'R1.reference_end': 'reference_end',
+           'self.cut_location_offset': 'cut_location_offset'}
+
+    def fail(self, node, why):
+        raise Untranslatable('nla identify_site (no_overhang): %s at line %s: %s'
+                             % (why, getattr(node, 'lineno', '?'), ast.unparse(node)[:160]))
+
+    def tr(self, st):
+        t = RefTranslator(env=dict(self.ENV), bool_names=('is_reverse',))
+        t.bool_env = {'R1.is_reverse'}
+        for v, (ty, e) in st.items():
+            if ty == 'z':
+                t.env[v] = e
+            elif ty == 'str':
+                t.str_env[v] = e
+        return t
+
+    def run(self, stmts, st):
+        st = dict(st)
+        for s in stmts:
+            if isinstance(s, ast.Pass):
+                continue
+            if isinstance(s, ast.Assign) and len(s.targets) == 1 and isinstance(s.targets[0], ast.Name):
+                v, t = s.targets[0].id, self.tr(st)
+                if isinstance(s.value, ast.Constant) and s.value.value is None:
+                    st[v] = ('optz', 'None')
+                elif t.is_strx(s.value):
+                    st[v] = ('str', t.sx(s.value))
+                elif st.get(v, ('', ''))[0] == 'optz':
+                    st[v] = ('optz', '(Some %s)' % t.z(s.value))
+                else:
+                    st[v] = ('z', t.z(s.value))
+                continue
+            if isinstance(s, ast.If):
+                c = self.tr(st).b(s.test)
+                a, b = self.run(s.body, st), self.run(s.orelse, st)
+                merged = {}
+                for v in a:
+                    if v in b and a[v][0] == b[v][0]:
+                        merged[v] = a[v] if a[v] == b[v] else (a[v][0], '(if %s then %s else %s)' % (c, a[v][1], b[v][1]))
+                    elif v in st:
+                        self.fail(s, 'variable %s changes type between branches' % v)
+                for v in st:
+                    if v not in merged:
+                        self.fail(s, 'variable %s lost in a branch' % v)
+                st = merged
+                continue
+            self.fail(s, 'statement outside subset')
+        return st
+
+
+def gen_no_overhang(rel):
+    """the body of `if self.no_overhang:` -> nla_no_overhang_gen
+       result: (site_set, ds_set, site_strand, site_pos, rz, rr, reads_qcfail, found_valid_site);
+       site_set = set_site was called (RS, site_location, cut_site_strand exist)"""
+    src = open(os.path.join(fw.REPO, rel)).read()
+    fn = py2coq.find_function(ast.parse(src), 'NlaIIIFragment.identify_site')
+    arms = [st for st in fn.body if isinstance(st, ast.If) and ast.unparse(st.test) == 'self.no_overhang']
+    if len(arms) != 1:
+        raise Untranslatable('identify_site: expected exactly one top-level `if self.no_overhang:`')
+    body = list(arms[0].body)
+    ex = RefExtractor()
+    # leading part: everything up to the test on the optional site
+    k = None
+    for i, st in enumerate(body):
+        if isinstance(st, ast.If) and isinstance(st.test, ast.Compare) and len(st.test.ops) == 1 \
+                and isinstance(st.test.ops[0], ast.Is) and isinstance(st.test.left, ast.Name) \
+                and ast.unparse(st.test.comparators[0]) == 'None':
+            k = i
+            break
+    if k is None:
+        raise Untranslatable('identify_site (no_overhang): no `if <site> is None:` rejection test')
+    state = ex.run(body[:k], {})
+    sv = body[k].test.left.id
+    if state.get(sv, ('', ''))[0] != 'optz':
+        ex.fail(body[k], 'tested variable is not the optional site')
+    # rejection arm
+    rej = body[k]
+    if rej.orelse or len(rej.body) != 2 or not isinstance(rej.body[1], ast.Return) or \
+            not (rej.body[1].value is None or (isinstance(rej.body[1].value, ast.Constant) and rej.body[1].value.value in (None, False))):
+        ex.fail(rej, 'rejection arm is not [set_rejection_reason(...); return None]')
+    hx = Extractor('nla')
+    if not hx.is_call(rej.body[0], 'set_rejection_reason'):
+        ex.fail(rej, 'rejection arm does not call set_rejection_reason')
+    rr, qc = hx.reason_after([rej.body[0]])
+    # accepting tail: set_site / set_recognized_sequence in any order, then return
+    st2 = dict(state)
+    st2[sv] = ('z', sv)            # bound by the match below
+    t = ex.tr(st2)
+    site, rz, found = None, 'None', None
+    tail = body[k + 1:]
+    for i, st in enumerate(tail):
+        if hx.is_call(st, 'set_site'):
+            if st.value.args or site is not None:
+                ex.fail(st, 'set_site form')
+            kw = {x.arg: x.value for x in st.value.keywords}
+            if set(kw) - {'site_strand', 'site_chrom', 'site_pos', 'valid'} or not {'site_strand', 'site_chrom', 'site_pos'} <= set(kw) \
+                    or ast.unparse(kw['site_chrom']) != 'R1.reference_name':
+                ex.fail(st, 'set_site keywords')
+            v = kw.get('valid')
+            if v is not None and not (isinstance(v, ast.Constant) and isinstance(v.value, bool)):
+                ex.fail(st, 'valid= is not a literal')
+            site = ('true' if v is None or v.value else 'false', t.b(kw['site_strand']), t.z(kw['site_pos']))
+        elif hx.is_call(st, 'set_recognized_sequence'):
+            if len(st.value.args) != 1 or st.value.keywords:
+                ex.fail(st, 'set_recognized_sequence form')
+            rz = '(Some %s)' % t.sx(st.value.args[0])
+        elif isinstance(st, ast.Return) and i == len(tail) - 1:
+            v = st.value
+            if v is None or (isinstance(v, ast.Constant) and v.value is None):
+                found = 'false'
+            elif isinstance(v, ast.Constant) and isinstance(v.value, bool):
+                found = 'true' if v.value else 'false'
+            elif isinstance(v, ast.Tuple) and len(v.elts) > 0:
+                found = 'true'                               # a non-empty tuple is truthy
+            else:
+                found = '(negb (%s =? 0))' % t.z(v)          # an int is truthy iff non-zero
+        else:
+            ex.fail(st, 'statement outside subset')
+    if site is None or found is None:
+        ex.fail(arms[0], 'accepting path without set_site / return')
+    seg = '\n'.join(src.splitlines()[arms[0].lineno - 1:arms[0].body[-1].end_lineno])
+    sha = hashlib.sha256(seg.encode()).hexdigest()
+    text = ('(* source: %s lines %d-%d sha256 %s\n'
+            '   result: (site_set, ds_set, site_strand, site_pos, rz, rr, reads_qcfail, found_valid_site) *)\n'
+            'Definition nla_no_overhang_gen (cut_location_offset : Z) (fetch : Z -> Z -> str) (is_reverse : bool)\n'
+            '  (reference_start reference_end : Z)\n'
+            '  : bool * bool * bool * Z * option str * option str * bool * bool :=\n'
+            '  match %s with\n'
+            '  | None => (false, false, false, 0, None, %s, %s, false)\n'
+            '  | Some %s => (true, %s, %s, %s, %s, None, false, %s)\n'
+            '  end.'
+            % (rel, arms[0].lineno, arms[0].body[-1].end_lineno, sha, state[sv][1], rr, qc, sv, site[0], site[1], site[2], rz, found))
+    return text, {'source': rel, 'lines': [arms[0].lineno, arms[0].body[-1].end_lineno], 'sha256': sha,
+                  'coq': 'nla_no_overhang_gen'}
+
+
 FRAG = 'singlecellmultiomics/fragment/fragment.py'
 
 
@@ -380,6 +567,282 @@ def gen_homopolymer():
     return text, {'source': FRAG, 'lines': [t.lineno, t.end_lineno], 'sha256': sha, 'coq': 'nuc_stretch_bases'}
 
 
+# ------------------------------------------------------------------------------- fragment size rule
+class SpanExtractor(RefExtractor):
+    """Fragment.update_span: the bodies of the three guarded branches (pair / R1 only / R2 only) as (start, end)"""
+    ENV = {'self.R1.is_reverse': 'r1_is_reverse', 'self.R2.is_reverse': 'r2_is_reverse',
+           'self.R1.reference_start': 'r1_reference_start', 'self.R1.reference_end': 'r1_reference_end',
+           'self.R2.reference_start': 'r2_reference_start', 'self.R2.reference_end': 'r2_reference_end'}
+    IGNORED = ('contig', 'self.safe_span')
+
+    def fail(self, node, why):
+        raise Untranslatable('Fragment.update_span: %s at line %s: %s' % (why, getattr(node, 'lineno', '?'), ast.unparse(node)[:160]))
+
+    def tr(self, st):
+        t = RefTranslator(env=dict(self.ENV), bool_names=('r1_is_reverse', 'r2_is_reverse'))
+        t.bool_env = {'self.R1.is_reverse', 'self.R2.is_reverse'}
+        return t
+
+    def run(self, stmts, st):
+        st = dict(st)
+        for s in stmts:
+            if isinstance(s, ast.Assign) and len(s.targets) == 1:
+                tg = s.targets[0]
+                if ast.unparse(tg) in self.IGNORED:
+                    continue
+                t = self.tr(st)
+                if isinstance(tg, ast.Tuple) and isinstance(s.value, ast.Tuple) and len(tg.elts) == len(s.value.elts) \
+                        and all(isinstance(e, ast.Name) and e.id in ('start', 'end') for e in tg.elts):
+                    vals = [t.z(v) for v in s.value.elts]      # right-hand sides never mention start / end (checked below)
+                    if any(isinstance(n, ast.Name) and n.id in ('start', 'end') for v in s.value.elts for n in ast.walk(v)):
+                        self.fail(s, 'right-hand side reads start/end')
+                    for e, v in zip(tg.elts, vals):
+                        st[e.id] = ('z', v)
+                    continue
+                if isinstance(tg, ast.Name) and tg.id in ('start', 'end'):
+                    if any(isinstance(n, ast.Name) and n.id in ('start', 'end') for n in ast.walk(s.value)):
+                        self.fail(s, 'right-hand side reads start/end')
+                    st[tg.id] = ('z', t.z(s.value))
+                    continue
+                self.fail(s, 'assignment outside subset')
+            if isinstance(s, ast.If):
+                c = self.tr(st).b(s.test)
+                a, b = self.run(s.body, st), self.run(s.orelse, st)
+                if set(a) != set(b):
+                    self.fail(s, 'branches assign different variables')
+                st = {v: (a[v] if a[v] == b[v] else ('z', '(if %s then %s else %s)' % (c, a[v][1], b[v][1]))) for v in a}
+                continue
+            self.fail(s, 'statement outside subset')
+        return st
+
+
+SPAN_GUARDS = [
+    ('pair', 'self.has_R1() and self.has_R2() and (self.R1.reference_start is not None) and (self.R1.reference_end is not None) '
+             'and (self.R2.reference_start is not None) and (self.R2.reference_end is not None)'),
+    ('r1', 'self.has_R1() and self.R1.reference_start is not None and (self.R1.reference_end is not None)'),
+    ('r2', 'self.has_R2() and self.R2.reference_start is not None and (self.R2.reference_end is not None)'),
+]
+SPAN_ELSE = ("for read in self:\n    if read is None:\n        continue\n    if len(read.cigar) != 0:\n        raise NotImplementedError('Non implemented span')\n"
+             "    if read.reference_start is not None:\n        start, end = (read.reference_start, read.reference_start)\n        contig = read.reference_name\n"
+             "    else:\n        raise NotImplementedError('Non implemented span, undefined alignment, and not start coordinate')")
+
+
+def norm_guard(test):
+    """guard as a set of conjuncts (order and parenthesisation of an `and` chain do not matter)"""
+    if isinstance(test, ast.BoolOp) and isinstance(test.op, ast.And):
+        return frozenset(x for v in test.values for x in norm_guard(v))
+    return frozenset([ast.unparse(test)])
+
+
+class ValidExtractor:
+    """<Class>.is_valid as a function of (qcfail, found_valid_site, max_fragment_size : option Z, fragment_size : option Z)
+    -> (valid, rejection reason added, reads flagged qcfail).  fragment_size = None: the span is undefined,
+    get_fragment_size() raises TypeError.  Continuation-passing symbolic execution of return / if / try / assignment
+    of the size / set_rejection_reason; an unguarded get_fragment_size() (outside a try that swallows the TypeError,
+    on a path where it can be None) is refused."""
+
+    def __init__(self, cls):
+        self.cls = cls
+
+    def fail(self, node, why):
+        raise Untranslatable('%s.is_valid: %s at line %s: %s' % (self.cls, why, getattr(node, 'lineno', '?'), ast.unparse(node)[:160]))
+
+    def is_size(self, n, env):
+        return (isinstance(n, ast.Call) and ast.unparse(n) == 'self.get_fragment_size()') or \
+               (isinstance(n, ast.Name) and n.id in env.get('sizevars', ()))
+
+    def zexpr(self, n, env):
+        t = SiteTranslator(env={}, bool_names=())
+        sub = {}
+        if 'max' in env:
+            sub['self.max_fragment_size'] = env['max']
+        if 'size' in env:
+            sub['self.get_fragment_size()'] = env['size']
+            for v in env.get('sizevars', ()):
+                sub[v] = env['size']
+        def chk(x):
+            u = ast.unparse(x)
+            if u in sub:
+                return
+            if u in ('self.max_fragment_size', 'self.get_fragment_size()'):
+                self.fail(n, '%s used where it may be None / may raise' % u)
+            if isinstance(x, (ast.Attribute, ast.Name)) and not (isinstance(x, ast.Name) and u in ('abs', 'min', 'max')):
+                self.fail(n, 'unbound name %s' % u)
+            for ch in ast.iter_child_nodes(x):
+                chk(ch)
+        chk(n)
+        t.env = sub
+        return t.z(n)
+
+    def cond(self, test, env, then_k, else_k, exc_k):
+        """Coq expression; then_k / else_k : env -> str ; exc_k : (env -> str) | None"""
+        if isinstance(test, ast.BoolOp) and isinstance(test.op, ast.And):
+            first, rest = test.values[0], test.values[1:]
+            nxt = (lambda e: self.cond(rest[0] if len(rest) == 1 else ast.BoolOp(op=ast.And(), values=rest), e, then_k, else_k, exc_k))
+            return self.cond(first, env, nxt, else_k, exc_k)
+        if isinstance(test, ast.UnaryOp) and isinstance(test.op, ast.Not):
+            return self.cond(test.operand, env, else_k, then_k, exc_k)
+        u = ast.unparse(test)
+        if u == 'self.qcfail':
+            return '(if qcfail then %s else %s)' % (then_k(env), else_k(env))
+        if u == 'self.found_valid_site':
+            return '(if found_valid_site then %s else %s)' % (then_k(env), else_k(env))
+        if u in ('self.max_fragment_size is not None', 'self.max_fragment_size is None'):
+            some, none = (then_k, else_k) if 'not' in u else (else_k, then_k)
+            if 'max' in env:
+                return some(env)
+            e2 = dict(env, max='max_v')
+            return '(match max_fragment_size with Some max_v => %s | None => %s end)' % (some(e2), none(env))
+        if isinstance(test, ast.Compare) and len(test.ops) == 1:
+            uses_size = any(self.is_size(x, env) for x in ast.walk(test))
+            if uses_size and 'size' not in env:
+                if exc_k is None:
+                    self.fail(test, 'get_fragment_size() outside a try block')
+                e2 = dict(env, size='size_v')
+                inner = self.cond(test, e2, then_k, else_k, exc_k)
+                return '(match fragment_size with Some size_v => %s | None => %s end)' % (inner, exc_k(env))
+            t = SiteTranslator(env={}, bool_names=())
+            l, r = self.zexpr(test.left, env), self.zexpr(test.comparators[0], env)
+            table = {ast.Lt: '(%s <? %s)', ast.LtE: '(%s <=? %s)', ast.Gt: '(%s >? %s)', ast.GtE: '(%s >=? %s)',
+                     ast.Eq: '(%s =? %s)', ast.NotEq: '(negb (%s =? %s))'}
+            for k, fmt in table.items():
+                if isinstance(test.ops[0], k):
+                    return '(if %s then %s else %s)' % (fmt % (l, r), then_k(env), else_k(env))
+        self.fail(test, 'test outside subset')
+
+    def ev(self, stmts, env, st, after, exc_k):
+        """st = (rr, qc) accumulated side effects; after : (env, st) -> str continuation when the block falls through"""
+        if not stmts:
+            return after(env, st)
+        s, rest = stmts[0], stmts[1:]
+        go = lambda e, st2=st: self.ev(rest, e, st2, after, exc_k)
+        if isinstance(s, ast.Pass):
+            return go(env)
+        if isinstance(s, ast.Return):
+            v = s.value
+            if isinstance(v, ast.Constant) and isinstance(v.value, bool):
+                val = 'true' if v.value else 'false'
+            elif v is not None and ast.unparse(v) == 'self.found_valid_site':
+                val = 'found_valid_site'
+            else:
+                self.fail(s, 'return value outside subset')
+            return '(%s, %s, %s)' % (val, st[0], st[1])
+        if isinstance(s, ast.Expr) and isinstance(s.value, ast.Call) and ast.unparse(s.value.func) == 'self.set_rejection_reason':
+            rr, qc = Extractor('nla').reason_after([s])
+            if st[0] != 'None':
+                self.fail(s, 'two rejection reasons on one path')
+            return self.ev(rest, env, (rr, qc), after, exc_k)
+        if isinstance(s, ast.Assign) and len(s.targets) == 1 and isinstance(s.targets[0], ast.Name) \
+                and ast.unparse(s.value) == 'self.get_fragment_size()':
+            name = s.targets[0].id
+            if 'size' in env:
+                return go(dict(env, sizevars=tuple(env.get('sizevars', ())) + (name,)))
+            if exc_k is None:
+                self.fail(s, 'get_fragment_size() outside a try block')
+            e2 = dict(env, size='size_v', sizevars=tuple(env.get('sizevars', ())) + (name,))
+            return '(match fragment_size with Some size_v => %s | None => %s end)' % (go(e2), exc_k(env, st))
+        if isinstance(s, ast.If):
+            return self.cond(s.test, env,
+                             lambda e: self.ev(list(s.body) + rest, e, st, after, exc_k),
+                             lambda e: self.ev(list(s.orelse) + rest, e, st, after, exc_k),
+                             None if exc_k is None else (lambda e: exc_k(e, st)))
+        if isinstance(s, ast.Try):
+            if s.orelse or s.finalbody or len(s.handlers) != 1:
+                self.fail(s, 'try form')
+            h = s.handlers[0]
+            if not (h.type is None or ast.unparse(h.type) in ('TypeError', 'Exception')) or \
+                    not all(isinstance(x, ast.Pass) for x in h.body):
+                self.fail(s, 'handler is not `except TypeError/Exception: pass`')
+            cont = lambda e, st2: self.ev(rest, {k: v for k, v in e.items() if k == 'max'}, st2, after, exc_k)
+            return self.ev(list(s.body), env, st, cont, cont)
+        self.fail(s, 'statement outside subset')
+
+
+def gen_is_valid(cls, rel, coqname):
+    src = open(os.path.join(fw.REPO, rel)).read()
+    fn = py2coq.find_function(ast.parse(src), cls + '.is_valid')
+    vx = ValidExtractor(cls)
+    body = [st for st in fn.body if not (isinstance(st, ast.Expr) and isinstance(st.value, ast.Constant))]
+    expr = vx.ev(body, {}, ('None', 'false'), lambda e, st: vx.fail(fn, 'falls off the end'), None)
+    seg = '\n'.join(src.splitlines()[fn.lineno - 1:fn.end_lineno])
+    sha = hashlib.sha256(seg.encode()).hexdigest()
+    text = ('(* source: %s lines %d-%d sha256 %s\n   result: (is_valid, rejection reason added, reads flagged qcfail);'
+            ' fragment_size = None: span undefined (get_fragment_size raises TypeError) *)\n'
+            'Definition %s (qcfail found_valid_site : bool) (max_fragment_size fragment_size : option Z)\n'
+            '  : bool * option str * bool :=\n  %s.' % (rel, fn.lineno, fn.end_lineno, sha, coqname, expr))
+    return text, {'source': rel, 'lines': [fn.lineno, fn.end_lineno], 'sha256': sha, 'coq': coqname}
+
+
+def gen_size():
+    """Fragment.get_fragment_size, the three guarded branches of Fragment.update_span, NlaIIIFragment.is_valid,
+    CHICFragment.is_valid"""
+    chunks, meta = [], []
+    src = open(os.path.join(fw.REPO, FRAG)).read()
+    tree = ast.parse(src)
+    # get_fragment_size
+    fn = py2coq.find_function(tree, 'Fragment.get_fragment_size')
+    body = [st for st in fn.body if not (isinstance(st, ast.Expr) and isinstance(st.value, ast.Constant))]
+    if len(body) != 1 or not isinstance(body[0], ast.Return):
+        raise Untranslatable('Fragment.get_fragment_size is not a single return')
+    t = SiteTranslator(env={'self.span[1]': 'span_start', 'self.span[2]': 'span_end'}, bool_names=())
+    if any(isinstance(n, ast.Name) and n.id not in ('abs', 'min', 'max', 'self') for n in ast.walk(body[0].value)):
+        raise Untranslatable('Fragment.get_fragment_size: free name in %s' % ast.unparse(body[0].value))
+    e = t.z(body[0].value)
+    if 'self' in e:
+        raise Untranslatable('Fragment.get_fragment_size: untranslated attribute in %s' % e)
+    seg = '\n'.join(src.splitlines()[fn.lineno - 1:fn.end_lineno])
+    sha = hashlib.sha256(seg.encode()).hexdigest()
+    chunks.append('(* source: %s lines %d-%d sha256 %s *)\nDefinition fragment_size_gen (span_start span_end : Z) : Z :=\n  %s.'
+                  % (FRAG, fn.lineno, fn.end_lineno, sha, e))
+    meta.append({'source': FRAG, 'lines': [fn.lineno, fn.end_lineno], 'sha256': sha, 'coq': 'fragment_size_gen'})
+    # update_span
+    fn = py2coq.find_function(tree, 'Fragment.update_span')
+    body = [st for st in fn.body if not (isinstance(st, ast.Expr) and isinstance(st.value, ast.Constant))]
+    inits = sorted(ast.unparse(st) for st in body[:-2])
+    if inits != ['contig = None', 'end = None', 'start = None'] or not isinstance(body[-2], ast.If) \
+            or ast.unparse(body[-1]) != 'self.span = (contig, start, end)':
+        raise Untranslatable('Fragment.update_span: outer shape changed')
+    sx = SpanExtractor()
+    node, defs = body[-2], []
+    for name, guard in SPAN_GUARDS:
+        if not isinstance(node, ast.If) or norm_guard(node.test) != norm_guard(ast.parse(guard, mode='eval').body):
+            raise Untranslatable('Fragment.update_span: guard of the %s branch changed: %s'
+                                 % (name, ast.unparse(node.test) if isinstance(node, ast.If) else type(node).__name__))
+        st = sx.run(node.body, {})
+        if set(st) != {'start', 'end'}:
+            raise Untranslatable('Fragment.update_span: the %s branch does not assign start and end' % name)
+        defs.append((name, st))
+        if len(node.orelse) == 1 and isinstance(node.orelse[0], ast.If) and name != 'r2':
+            node = node.orelse[0]
+        elif name == 'r2':
+            if '\n'.join(ast.unparse(x) for x in node.orelse) != SPAN_ELSE:
+                raise Untranslatable('Fragment.update_span: the CIGAR-less fallback loop changed')
+        else:
+            raise Untranslatable('Fragment.update_span: elif chain changed')
+    seg = '\n'.join(src.splitlines()[fn.lineno - 1:fn.end_lineno])
+    sha = hashlib.sha256(seg.encode()).hexdigest()
+    txt = ['(* source: %s lines %d-%d sha256 %s   (start, end) of self.span per guarded branch of update_span *)'
+           % (FRAG, fn.lineno, fn.end_lineno, sha)]
+    for name, st in defs:
+        if name == 'pair':
+            params = '(r1_is_reverse r2_is_reverse : bool) (r1_reference_start r1_reference_end r2_reference_start r2_reference_end : Z)'
+        else:
+            params = '(%s_reference_start %s_reference_end : Z)' % (name, name)
+        used = st['start'][1] + ' ' + st['end'][1]
+        allowed = set(params.replace('(', ' ').replace(')', ' ').replace(':', ' ').split())
+        for w in set(__import__('re').findall(r'[A-Za-z_][A-Za-z_0-9.]*', used)):
+            if w not in allowed and w not in ('if', 'then', 'else', 'negb', 'Z.min', 'Z.max', 'Z.abs'):
+                raise Untranslatable('Fragment.update_span: the %s branch uses %s' % (name, w))
+        txt.append('Definition span_%s_gen %s : Z * Z :=\n  (%s, %s).' % (name, params, st['start'][1], st['end'][1]))
+    chunks.append('\n'.join(txt))
+    meta.append({'source': FRAG, 'lines': [fn.lineno, fn.end_lineno], 'sha256': sha, 'coq': 'span_pair_gen span_r1_gen span_r2_gen'})
+    for cls, rel, nm in (('NlaIIIFragment', NLA, 'nla_is_valid_gen'), ('CHICFragment', CHIC, 'chic_is_valid_gen')):
+        t2, m2 = gen_is_valid(cls, rel, nm)
+        chunks.append(t2)
+        meta.append(m2)
+    return chunks, meta
+
+
 def regen_site():
     chunks, meta = [], []
     t, m = gen_homopolymer()
@@ -389,7 +852,13 @@ def regen_site():
         t, m = gen_site(kind, rel)
         chunks.append(t)
         meta.append(m)
-    py2coq.write_gen(os.path.join(fw.COQ, 'Gen', 'GenSite.v'), 'From SCMO Require Import Lib.C09Str.\n', chunks)
+    t, m = gen_no_overhang(NLA)
+    chunks.append(t)
+    meta.append(m)
+    c2, m2 = gen_size()
+    chunks += c2
+    meta += m2
+    py2coq.write_gen(os.path.join(fw.COQ, 'Gen', 'GenSite.v'), 'From SCMO Require Import Lib.C09Str Lib.C09Ref.\n', chunks)
     return meta
 
 
@@ -533,6 +1002,85 @@ def mask_qc(case, m):
     return m
 
 
+# =============================================================================== extension: ground truth (Python)
+def place_mate(cycles, mid, x2, reverse, clip, tail, mx=None):
+    """the second read of a pair whose read 1 lies on strand `reverse`: first cycle at x2, opposite strand"""
+    return place_read(cycles, mid, x2, not reverse, clip, tail, mx=mx)
+
+
+def pair_extent(x1, clip1, x2, clip2, reverse):
+    """reference bases from the first aligned base of read 1 to the first aligned base of its mate"""
+    return (x1 - clip1) - (x2 + clip2) + 1 if reverse else (x2 - clip2) - (x1 + clip1) + 1
+
+
+def read_end(r):
+    """pysam reference_end: None for an unmapped read or a read without CIGAR"""
+    if r is None or r['unmapped'] or not r['cigar']:
+        return None
+    return r['start'] + ref_span(r['cigar'])
+
+
+def mate_ok(r1, r2):
+    """hypothesis of the size-rule mirror theorems: the mate is absent, has no reference span, or lies on the other strand"""
+    return r2 is None or read_end(r2) is None or r2['rev'] != r1['rev']
+
+
+XKIND = {'nla': 0, 'chic': 1, 'nla_no': 2}
+
+
+def x_model_input(cs):
+    reads = cs['reads']
+    r1 = reads[0] if reads else None
+    r2 = reads[1] if len(reads) > 1 else None
+    pre = any(r is not None and r['qcfail'] for r in reads)
+    return [XKIND[cs['kind']], list(cs['c']), len(reads) == 2, pre, enc_read(r1), enc_read(r2),
+            [r['seq'] for r in reads if r is not None] if cs['kind'] == 'chic' else [],
+            [] if cs.get('ref') is None else [cs['ref']], [] if cs.get('maxfs') is None else [cs['maxfs']], -4]
+
+
+def x_cfg_kwargs(cs):
+    kw = cfg_kwargs('nla' if cs['kind'] == 'nla_no' else cs['kind'], cs['c'])
+    if cs.get('maxfs') is not None:
+        kw['max_fragment_size'] = cs['maxfs']
+    return kw
+
+
+def canon_rz(cs, rz):
+    """no_overhang mode stores the whole scanned window as RZ; the statement asks for the coordinate of the
+    recognised CATG, not for what is kept as `recognised sequence`: compared as `shows the motif`"""
+    if cs['kind'] == 'nla_no' and rz is not None:
+        return 'CATG' in rz
+    return rz
+
+
+def x_canon_impl(cs, res):
+    if 'error' in res:
+        t = res['error'].split(':')[0]
+        return ('raise' if t in ('TypeError', 'ValueError', 'NotImplementedError') else 'error:' + res['error']), []
+    r = dict(res)
+    r.setdefault('get_site_location', r.get('site_location'))
+    c, pr = canon_impl(cs, r)
+    if isinstance(c, dict):
+        c['RZ'] = canon_rz(cs, c['RZ'])
+    return c, pr
+
+
+def x_view(cs, d):
+    """what the size rule leaves free: WHEN the reads of a fragment that is not valid get their qcfail flag and a reason
+    (NlaIIIFragment does both inside is_valid, CHICFragment leaves it to write_tags) - the written BAM shows the
+    flag either way and is compared through the command lines"""
+    if isinstance(d, dict) and cs.get('maxfs') is not None and not d['valid']:
+        d = dict(d, RR='free', qc='free')
+    return d
+
+
+def x_decode_model(cs, out):
+    m = decode_model(out)
+    if isinstance(m, dict):
+        m['RZ'] = canon_rz(cs, m['RZ'])
+    return m
+
+
 # =============================================================================== the check
 class Prop(fw.PropBase):
     ID = 'C09'
@@ -543,8 +1091,17 @@ class Prop(fw.PropBase):
         'modelled not verified: pysam AlignedSegment (reference_end = reference_start + reference-consuming CIGAR '
         'lengths, cigartuples, seq slicing, tag storage) - K compares pysam\'s geometry with the harness on every case; '
         'Fragment.__init__ bookkeeping (sample, UMI, span), set_meta writing the same tag to every read',
-        'not modelled: NlaIIIFragment(no_overhang=True) (reference lookup mode), max_fragment_size, the CHIC '
-        'homopolymer filter (max_NUC_stretch=18): generated reads have no 18-mer homopolymers',
+        'tools/c09.py RefExtractor / SpanExtractor / ValidExtractor (extension): the body of `if self.no_overhang:`, '
+        'Fragment.get_fragment_size, the three guarded branches of Fragment.update_span and both is_valid functions are '
+        'regenerated into Gen/GenSite.v; which branch of update_span applies (pysam: reference_end is None for unmapped / '
+        'CIGAR-less reads), its CIGAR-less fallback loop, the constructor checks of no_overhang mode and set_site are '
+        'hand-written (Model/C09x.v) and compared in K',
+        'modelled not verified: the reference handle - pysamiterators.CachedFasta.fetch(contig, a, b) is modelled as the '
+        'Python slice contig[a:b] (negative bounds wrap, bounds beyond the end are clamped); K runs the real '
+        'CachedFastaNoHandle on FASTA files written by the harness; pysam.FastaFile (raises on a negative bound) is not '
+        'modelled; upper-case references only (the motif test is case sensitive)',
+        'not modelled: Fragment.has_valid_span / write_tags (the FS reason and qcfail flag of a CHIC fragment rejected '
+        'by size are only observed in the BAM written by the command line), cut_location_offset other than -4',
     ]
     ASSUMPTIONS = [
         'the aligner reports the read-start clipping as one soft-clip operation at the outer end of the CIGAR '
@@ -553,6 +1110,14 @@ class Prop(fw.PropBase):
         'clip correction off by design)',
         'ground truth = the simulator simulate_nla / simulate_chic (first sequenced cycle pairs with the first base of '
         'the motif / with the ligated overhang base)',
+        'no_overhang mode: ground truth = simulate_nla_no (first cycle = the base next to the CATG, which stays outside '
+        'the read); DS = p is proved for 0..3 clipped cycles, reads lying on the contig, p > 0 and a forward window that '
+        'starts inside the contig - the statement without these hypotheses is refuted (C09_nla_no_overhang_clip_refuted, '
+        '_contig_start_refuted, _site_zero_refuted; findings D33/D34)',
+        'max_fragment_size: fragment size = |end - start| of the span Fragment.update_span computes from the ALIGNED '
+        'coordinates (soft-clipped cycles do not count); ground truth = pair_extent of the simulated pair; strand '
+        'independence is proved for single reads and mates on opposite strands - for two mates on the same strand it is '
+        'refuted (C09_size_rule_same_orientation_refuted; finding D35)',
     ]
 
     def regen(self):
@@ -864,9 +1429,14 @@ class Prop(fw.PropBase):
         self.L, self.off, self.n_plain = L, off, len(cases)
         bam_payload = [{'id': lib['id'], 'kind': lib['kind'], 'cfg': cfg_kwargs(lib['kind'], lib['c']),
                         'cases': [self.payload_case(cases[k]) for k in lib['idx']]} for lib in self.libs]
+        self.make_xcases()
         out = fw.run_impl('impl_c09.py', {'cases': [self.payload_case(c) for c in allc], 'bam': bam_payload,
-                                          'mol': self.mol_payload(cases, mirrored), 'cli': self.cli_payload(cases)})
-        res, self.bam_res, self.mol_res, self.cli_res = out['cases'], out['bam'], out['mol'], out['cli']
+                                          'mol': self.mol_payload(cases, mirrored),
+                                          'cli': self.cli_payload(cases) + self.xcli_payload(),
+                                          'x': [self.x_payload(c) for c in self.xc]})
+        res, self.bam_res, self.mol_res = out['cases'], out['bam'], out['mol']
+        self.cli_res, self.xcli_res, self.xres = out['cli'][:len(self.clis)], out['cli'][len(self.clis):], out['x']
+        self.ximpl = None
         self.allc, self.res = allc, res
         impl, problems = [], []
         for cs, r in zip(allc, res):
@@ -1018,7 +1588,9 @@ class Prop(fw.PropBase):
             b = fw.to_val(enc_read(mirrored[k]['reads'][0]))
             if a != b:
                 dis.append({'what': 'Coq mirror differs from the Python mirror', 'input': cases[k]['reads'][0], 'model': a, 'python': b})
-        self.cov['traces_validated_against_impl'] = len(allc)
+        dis += self.correspondence_x()
+        self.cov['traces_validated_against_impl'] = len(allc) + len(self.xc)
+        self.cov['evaluations'] = len(allc) + len(self.xc)
         self.cov['simulator_crosschecked'] = len(sim_in)
         self.cov['mirror_crosschecked'] = len(mir_idx)
         self.cov['disagreements'] = len(dis)
@@ -1032,6 +1604,466 @@ class Prop(fw.PropBase):
         if dis:
             self.dis = dis
             raise fw.Broken('correspondence', 'model and implementation disagree on %d cases; first: %r' % (len(dis), dis[0]))
+
+    # ---------------------------------------------------------------- extension stream (no_overhang, max_fragment_size)
+    def clean_ref(self, L):
+        s = ''.join(self.rng.choice('ACGT') for _ in range(L))
+        while 'CATG' in s:
+            s = s.replace('CATG', 'CTTG')
+        return s
+
+    def small_mid(self, qlen):
+        r = self.rng.random()
+        if qlen < 5 or r < 0.6:
+            return [[0, qlen]]
+        a = self.rng.randint(1, qlen - 3)
+        if r < 0.8:
+            return [[0, a], [1, 1], [0, qlen - a - 1]]
+        return [[0, a], [2, self.rng.randint(1, 3)], [0, qlen - a]]
+
+    def x_mate(self, r1, x1, clip1, how, lo, hi, size_target=None):
+        """-> (mate or None, truth size or None).  lo/hi: contig bounds for the mate"""
+        rng = self.rng
+        rev = r1['rev']
+        own = ref_len([o for o in r1['cigar'] if o[0] != 4])
+        if how == 'none':
+            return None, own
+        q2 = rng.randint(4, 12)
+        clip2 = rng.choice([0, 0, 1, 2])
+        mid2 = self.small_mid(q2)
+        cyc2 = self.rand_seq(q2 + clip2)
+        if how == 'unmapped':
+            m = {'start': r1['start'], 'cigar': [], 'rev': rng.random() < 0.5, 'seq': cyc2, 'unmapped': True,
+                 'qcfail': False, 'mx': r1['mx'], 'lh': None}
+            return m, own
+        if how == 'opposite':
+            ext = size_target if size_target is not None else rng.randint(own, own + 60)
+            x2 = (x1 - clip1) - ext + 1 - clip2 if rev else ext - 1 + (x1 + clip1) + clip2
+            m = place_mate(cyc2, mid2, x2, rev, clip2, 0, mx=r1['mx'])
+            if m['start'] < lo or m['start'] + ref_len(mid2) > hi:
+                return None, own
+            return m, abs(pair_extent(x1, clip1, x2, clip2, rev))
+        # same strand as read 1: NlaIIIFragment accepts it, the span is then taken from the two start coordinates
+        start2 = r1['start'] + rng.randint(-40, 40)
+        if start2 < lo or start2 + ref_len(mid2) > hi:
+            return None, own
+        m = {'start': start2, 'cigar': [list(o) for o in mid2], 'rev': rev, 'seq': cyc2[:q2], 'unmapped': False,
+             'qcfail': False, 'mx': r1['mx'], 'lh': None}
+        return m, None
+
+    def x_maxfs(self, size, r1, mate):
+        rng = self.rng
+        if size is None:      # same-strand mates: aim at the span the code computes from the start coordinates
+            size = abs(r1['start'] - mate['start'])
+        return rng.choice([None, None, size - 1, size, size + 1, size, size - 1, 0, size + rng.randint(2, 50), max(0, size - rng.randint(2, 20))])
+
+    def x_no_case(self, forced=None):
+        """one no_overhang case on its own small contig"""
+        rng = self.rng
+        f = forced or {}
+        c = f.get('c') or [rng.random() < 0.2, rng.random() > 0.03, rng.random() < 0.3, rng.random() < 0.3]
+        reverse = f.get('reverse', rng.random() < 0.5)
+        clip = f.get('clip', rng.choice([0, 0, 0, 1, 2, 3, 3, 4, 5]))
+        tail = rng.choice([0, 0, 0, 2])
+        qlen = rng.randint(4, 14)
+        mid = self.small_mid(qlen)
+        rl = ref_len(mid)
+        L = f.get('L') or rng.randint(rl + clip + 16, rl + clip + 80)
+        lo_p = (clip + rl) if reverse else 0
+        hi_p = (L - 4) if reverse else (L - 4 - clip - rl)
+        if hi_p < lo_p:
+            return None
+        edge = f.get('edge', rng.random() < 0.3)
+        if 'p' in f:
+            p = f['p']
+        elif edge:
+            p = max(lo_p, hi_p - rng.randint(0, 8)) if reverse else min(hi_p, lo_p + rng.randint(0, 8))
+        else:
+            p = rng.randint(lo_p, hi_p)
+        if not lo_p <= p <= hi_p:
+            return None
+        variant = f.get('variant') or rng.choice(['plain'] * 7 + ['none', 'decoy', 'gap'])
+        ref = self.clean_ref(L)
+        gap = 0
+        if variant != 'none':
+            ref = ref[:p] + 'CATG' + ref[p + 4:]
+        if variant == 'decoy':      # a second CATG right behind the first, on the read side
+            q = p - 4 if reverse else p + 4
+            if 0 <= q <= L - 4:
+                ref = ref[:q] + 'CATG' + ref[q + 4:]
+        if variant == 'gap':        # the read starts 1..3 bases away from the motif without any clipping
+            gap = rng.randint(1, 3)
+        cycles = self.rand_seq(qlen + clip + tail)
+        x = (p - 1 - gap) if reverse else (p + 4 + gap)
+        r1 = place_read(cycles, mid, x, reverse, clip, tail, mx='NLAIII384C8U3')
+        if r1['start'] < 0 or r1['start'] + rl > L:
+            return None
+        r1['qcfail'] = rng.random() < 0.05
+        how = f.get('pair') or rng.choice(['none'] * 5 + ['opposite'] * 3 + ['same', 'unmapped'])
+        mate, size = self.x_mate(r1, x, clip, how, 0, L)
+        if mate is None and how not in ('none',):
+            how, size = 'none', rl
+        reads = [r1, mate]
+        if rng.random() < 0.02:
+            reads = [r1]
+        maxfs = self.x_maxfs(size, r1, mate)
+        has_ref = rng.random() > 0.02
+        return {'kind': 'nla_no', 'c': c, 'reads': reads, 'ref': ref if has_ref else None, 'L': L, 'maxfs': maxfs,
+                'truth': {'p': p, 'reverse': reverse, 'clip': clip, 'tail': tail, 'variant': variant, 'size': size,
+                          'pair': how, 'x': x}}
+
+    def x_size_case(self, kind, forced=None):
+        """a simulated nla / chic fragment on the large contig with a placed mate and max_fragment_size near its size"""
+        rng = self.rng
+        f = forced or {}
+        reverse = f.get('reverse', rng.random() < 0.5)
+        clip = rng.choice([0, 0, 1, 2, 3, 6])
+        tail = rng.choice([0, 0, 2])
+        p = f.get('p') or rng.randint(2000, 90000)
+        if kind == 'nla':
+            c = f.get('c') or rng.choice(self.ALL_CFG)
+            cs = self.nla_case(c, reverse, clip, tail, False, rng.choice(['CATG'] * 5 + ['CTTG']), rng.randint(6, 30), p, pair='none')
+            x1 = (p + 3) if reverse else p
+        else:
+            c = f.get('c') or rng.choice([c for c in self.ALL_CFG if (c[1], c[2]) == (True, False)])
+            mx = rng.choice(self.MX)
+            cs = self.chic_case(c, reverse, clip, tail, mx, rng.randint(6, 30), p, pair='none')
+            trimmed = mx is not None and mx.startswith('scCHIC')
+            d = 1 if trimmed else 0
+            x1 = (p - d) if reverse else (p + d)
+        if cs is None:
+            return None
+        r1 = cs['reads'][0]
+        r1['qcfail'] = rng.random() < 0.05
+        how = f.get('pair') or rng.choice(['none'] * 3 + ['opposite'] * 5 + ['same', 'unmapped'])
+        mate, size = self.x_mate(r1, x1, clip, how, 0, 100000)
+        if mate is None and how != 'none':
+            how, size = 'none', ref_len([o for o in r1['cigar'] if o[0] != 4])
+        cs['reads'] = [r1, mate]
+        if kind == 'chic' and mate is None and rng.random() < 0.3:
+            cs['reads'] = [r1]
+        cs['maxfs'] = f['maxfs'](size) if 'maxfs' in f else self.x_maxfs(size, r1, mate)
+        cs['c'] = list(cs['c'])
+        cs['truth'] = dict(cs['truth'], size=size, pair=how, x1=x1)
+        cs['L'] = 100000
+        return cs
+
+    def make_xcases(self):
+        rng = self.rng
+        quick = self.tier == 'quick'
+        xs = []
+        # exhaustive small scope: strand x clip 0..5 x distance of the motif from the contig start / end 0..9
+        for reverse in (False, True):
+            for clip in range(0, 6):
+                for d in range(0, 10):
+                    for variant in ('plain', 'none'):
+                        L = 60
+                        p = (L - 4 - d) if reverse else d
+                        cs = self.x_no_case({'reverse': reverse, 'clip': clip, 'p': p, 'L': L, 'variant': variant,
+                                             'c': [False, True, False, False], 'pair': 'none'})
+                        if cs:
+                            xs.append(cs)
+        n_exh = len(xs)
+        for _ in range(700 if quick else 12000):
+            cs = self.x_no_case()
+            if cs:
+                xs.append(cs)
+        for _ in range(900 if quick else 16000):
+            cs = self.x_size_case(rng.choice(['nla', 'chic']))
+            if cs:
+                xs.append(cs)
+        # command lines: -max_fragment_size for both methods, -method nla_no_overhang -ref <fasta>
+        self.xclis = []
+        nfr = 30 if quick else 120
+        for kind in ('nla', 'chic'):
+            m = rng.choice([50, 60, 70])
+            idxs = []
+            for k in range(nfr):
+                cs = self.x_size_case(kind, {'p': 2000 + 900 * k + rng.randint(0, 40), 'c': [False, True, False, False],
+                                             'pair': rng.choice(['none', 'opposite', 'opposite']),
+                                             'maxfs': lambda size, m=m: m})
+                if cs:
+                    if cs['reads'][0]['qcfail']:
+                        cs['reads'][0]['qcfail'] = False
+                    if cs['truth']['pair'] == 'opposite' and rng.random() < 0.8:
+                        # re-place the mate so that the size lands on the boundary m-1 / m / m+1
+                        r1, t = cs['reads'][0], cs['truth']
+                        mate, size = self.x_mate(r1, t['x1'], t['clip'], 'opposite', 0, 100000, size_target=m + rng.choice([-1, 0, 1]))
+                        if mate is not None:
+                            cs['reads'][1] = mate
+                            t['size'] = size
+                    idxs.append(len(xs))
+                    xs.append(cs)
+            self.xclis.append({'kind': kind, 'method': kind, 'flags': ['-max_fragment_size', str(m)], 'idx': idxs, 'ref': None, 'L': None})
+        Lc = 2000 + 600 * nfr
+        ref = self.clean_ref(Lc)
+        idxs, frs = [], []
+        for k in range(nfr):
+            reverse = rng.random() < 0.5
+            clip, tail = rng.choice([0, 0, 1, 2, 3, 4]), rng.choice([0, 0, 2])
+            qlen = rng.randint(8, 30)
+            mid = self.small_mid(qlen)
+            p = 1000 + 600 * k + rng.randint(0, 40)
+            variant = rng.choice(['plain'] * 5 + ['none'])
+            if variant == 'plain':
+                ref = ref[:p] + 'CATG' + ref[p + 4:]
+            x = (p - 1) if reverse else (p + 4)
+            r1 = place_read(self.rand_seq(qlen + clip + tail), mid, x, reverse, clip, tail, mx='NLAIII384C8U3')
+            mate, size = self.x_mate(r1, x, clip, rng.choice(['none', 'opposite']), p - 250, p + 250)
+            frs.append((r1, mate, {'p': p, 'reverse': reverse, 'clip': clip, 'tail': tail, 'variant': variant, 'size': size,
+                                   'pair': 'none' if mate is None else 'opposite', 'x': x}))
+        for r1, mate, t in frs:
+            idxs.append(len(xs))
+            xs.append({'kind': 'nla_no', 'c': [False, True, False, False], 'reads': [r1, mate], 'ref': ref, 'L': Lc,
+                       'maxfs': None, 'truth': t})
+        self.xclis.append({'kind': 'nla_no', 'method': 'nla_no_overhang', 'flags': [], 'idx': idxs, 'ref': ref, 'L': Lc})
+        # every case also mirrored onto the reverse-complemented contig
+        mir = []
+        for k, cs in enumerate(xs):
+            mir.append({'kind': cs['kind'], 'c': cs['c'], 'reads': [mirror_read(cs['L'], r) for r in cs['reads']],
+                        'ref': None if cs.get('ref') is None else revcomp(cs['ref']), 'L': cs['L'], 'maxfs': cs.get('maxfs'),
+                        'mirror_of': k})
+        self.xn, self.xn_exh = len(xs), n_exh
+        self.xc = xs + mir
+        return self.xc
+
+    def x_payload(self, cs):
+        return {'kind': cs['kind'], 'cfg': x_cfg_kwargs(cs), 'reads': cs['reads'], 'ref': cs.get('ref')}
+
+    def xcli_payload(self):
+        out = []
+        for j, l in enumerate(self.xclis):
+            out.append({'id': 100 + j, 'kind': l['method'], 'flags': l['flags'], 'ref': l['ref'], 'L': l['L'],
+                        'cases': [{'kind': self.xc[k]['kind'], 'cfg': {}, 'reads': self.xc[k]['reads']} for k in l['idx']]})
+        return out
+
+    @staticmethod
+    def x_expectation(cs):
+        """direct Python transcription of the extension theorems for a simulated case ->
+        {'site': p, 'RS':.., 'cut':.., 'RZ':.., 'valid': bool | None (not constrained)} | 'rejected' | None"""
+        t = cs.get('truth')
+        if t is None or len(cs['reads']) != 2 and cs['kind'] != 'chic':
+            return None
+        nocigar, cm, sh, inv = cs['c']
+        rev = t['reverse']
+        r1, r2 = cs['reads'][0], (cs['reads'][1] if len(cs['reads']) > 1 else None)
+        pre = any(r is not None and r['qcfail'] for r in cs['reads'])
+        m = cs.get('maxfs')
+        if m is None:
+            valid = not pre
+        elif pre:
+            valid = False
+        elif t.get('size') is None:
+            valid = None                       # same-strand mates: no ground truth for the size (see C09_size_rule_same_orientation_refuted)
+        else:
+            valid = not (m < t['size'])        # C09_*_size_rule + C09_fragment_size_simulated
+        if cs['kind'] == 'nla_no':
+            if cs.get('ref') is None or not cm:
+                return None
+            if t['variant'] == 'none':
+                return 'rejected'                                              # C09_nla_no_overhang_reject
+            if t['variant'] != 'plain' or not (0 <= t['clip'] <= 3) or t['p'] <= 0 or (not rev and t['p'] + t['clip'] < 3):
+                return None                                                    # outside C09_nla_no_overhang_site_partial
+            return {'site': t['p'], 'RS': rev != inv, 'cut': rev, 'RZ': True, 'valid': valid}
+        e = Prop.expectation(cs)                                               # the base theorems (site / shift / rejection)
+        if e is None:
+            return None
+        if e[0] == 'rejected':
+            return 'rejected'
+        return {'site': e[1], 'RS': e[2], 'cut': e[3], 'RZ': e[4], 'valid': valid}
+
+    def x_mirror_applies(self, cs):
+        """hypotheses of C09_nla_size_rule_mirror_partial / C09_chic_size_rule_mirror / C09_nla_no_overhang_mirror_partial"""
+        r1 = cs['reads'][0] if cs['reads'] else None
+        if r1 is None or r1['unmapped'] or not r1['cigar'] or (cs['kind'] != 'chic' and len(cs['reads']) != 2):
+            return False
+        r2 = cs['reads'][1] if len(cs['reads']) > 1 else None
+        if not mate_ok(r1, r2):
+            return False
+        if cs['kind'] == 'nla_no':
+            if cs.get('ref') is None:
+                return False
+            L, e = cs['L'], read_end(r1)
+            fwd = (L - e) if r1['rev'] else r1['start']
+            return 0 <= r1['start'] < e <= L and fwd >= 8
+        return True
+
+    def correspondence_x(self):
+        """model (mode 5) against the real classes on the extension stream; returns disagreements"""
+        dis, problems = [], []
+        xc, xres = self.xc, self.xres
+        live = list(range(len(xc)))
+        self.ximpl = [None] * len(xc)
+        for i in live:
+            c, pr = x_canon_impl(xc[i], xres[i])
+            self.ximpl[i] = c
+            if pr:
+                problems.append({'input': self.x_payload(xc[i]), 'problems': pr})
+        hist = {}
+        for i in live:
+            cs = xc[i]
+            if 'truth' in cs:
+                k = '%s/%s/%s%s' % (cs['kind'], 'rev' if cs['truth']['reverse'] else 'fwd', cs['truth'].get('pair'),
+                                    '' if cs.get('maxfs') is None else '/maxfs')
+                hist[k] = hist.get(k, 0) + 1
+        out_hist = {}
+        for i in live:
+            c = self.ximpl[i]
+            k = c if isinstance(c, str) else ('valid' if c['valid'] else ('site, not valid' if c['DS'] is not None else 'rejected'))
+            out_hist[k] = out_hist.get(k, 0) + 1
+        nb = sum(1 for i in live if xc[i].get('maxfs') is not None and 'truth' in xc[i] and xc[i]['truth'].get('size') is not None
+                 and abs(xc[i]['maxfs'] - xc[i]['truth']['size']) <= 1)
+        pre_hit = sum(1 for i in live if 'truth' in xc[i] and self.x_expectation(xc[i]) is not None)
+        self.cov['extension'] = {
+            'evaluations': len(live), 'exhaustive_small_scope': 'no_overhang: strand x clip 0..5 x motif 0..9 bases from the contig start/end x motif present/absent: %d cases' % self.xn_exh,
+            'mirrored': len([i for i in live if 'mirror_of' in xc[i]]),
+            'hist_class_strand_mate': hist, 'hist_outcome': out_hist,
+            'max_fragment_size_within_1_of_the_fragment_size': nb,
+            'precondition_hit_rate': round(pre_hit / max(1, len([i for i in live if 'truth' in xc[i]])), 4),
+            'command_lines': ['-method %s %s%s' % (l['method'], ' '.join(l['flags']), ' -ref <fasta>' if l['ref'] else '') for l in self.xclis],
+        }
+        if problems:
+            self.problems = getattr(self, 'problems', []) + problems
+            raise fw.Broken('correspondence', 'implementation observation inconsistent (extension stream): %r' % (problems[0],))
+        if not self.model_ok:
+            return dis
+        self.xraw = fw.run_model('C09', 5, [x_model_input(cs) for cs in xc])
+        self.xmodel = [x_decode_model(cs, o) for cs, o in zip(xc, self.xraw)]
+        for i in live:
+            m, im = x_view(xc[i], mask_qc(xc[i], self.xmodel[i])), x_view(xc[i], self.ximpl[i])
+            if m != im:
+                dis.append({'what': 'extension stream (%s%s): model and implementation differ'
+                                    % (xc[i]['kind'], '' if xc[i].get('maxfs') is None else ', max_fragment_size=%d' % xc[i]['maxfs']),
+                            'input': self.x_payload(xc[i]), 'model': m, 'impl': im})
+        # command lines
+        ncli = 0
+        for l, cr in zip(self.xclis, self.xcli_res):
+            cmd = 'bamtagmultiome.py -method %s %s%s' % (l['method'], ' '.join(l['flags']), ' -ref <fasta>' if l['ref'] else '')
+            if 'error' in cr:
+                dis.append({'what': cmd + ' raised', 'impl': cr['error']})
+                continue
+            for n, k in enumerate(l['idx']):
+                m, got = self.xmodel[k], cr.get('f%04d' % n)
+                ncli += 1
+                if not isinstance(m, dict):
+                    continue
+                exp = {'DS': m['DS'], 'RS': None if m['RS'] is None else int(m['RS']), 'RZ': m['RZ'], 'qcfail': not m['valid']}
+                seen = None if got is None else [{'DS': v['DS'], 'RS': v['RS'], 'RZ': canon_rz(xc[k], v['RZ']), 'qcfail': v['qcfail']} for v in got.values()]
+                if seen is None or any(v != exp for v in seen):
+                    dis.append({'what': 'tags written by `%s` differ from the model' % cmd, 'input': self.x_payload(xc[k]) if l['ref'] is None else
+                                {'reads': xc[k]['reads'], 'truth': xc[k].get('truth')}, 'model': exp, 'impl': got})
+        self.cov['extension']['command_line_fragments'] = ncli
+        # Coq simulator (mode 6) against the Python one
+        sim_in, sim_exp = [], []
+        for i in live:
+            cs = xc[i]
+            t = cs.get('truth')
+            if t is None:
+                continue
+            r1 = cs['reads'][0]
+            mid = [o for o in r1['cigar'] if o[0] != 4]
+            cyc = revcomp(r1['seq']) if r1['rev'] else r1['seq']
+            if cs['kind'] == 'nla_no' and t['variant'] in ('plain', 'none', 'decoy'):
+                sim_in.append([2, cyc, mid, t['p'], t['reverse'], t['clip'], t['tail']])
+                sim_exp.append(fw.to_val(enc_read(dict(r1, mx=None))))
+        sim_out = fw.run_model('C09', 6, sim_in) if sim_in else []
+        for a, b, x in zip(sim_out, sim_exp, sim_in):
+            if a != b:
+                dis.append({'what': 'Coq no_overhang simulator differs from the Python ground-truth simulator', 'input': x, 'model': a, 'python': b})
+        self.cov['extension']['simulator_crosschecked'] = len(sim_in)
+        # vm_compute cross-check of the new modes on 100 cases with small contigs
+        small = [i for i in live if xc[i].get('ref') is None or len(xc[i]['ref']) <= 200]
+        idx = sorted(self.rng.sample(small, min(100, len(small))))
+        ok, nm, log = fw.vm_crosscheck('C09', 5, [(x_model_input(xc[i]), fw.to_val(self.xraw[i])) for i in idx],
+                                       run_name='run_C09x', require='Model.C09x')
+        self.cov['extension']['vm_compute_crosscheck'] = {'cases': len(idx), 'mismatches': nm}
+        if not ok:
+            raise fw.Broken('extraction', 'vm_compute and extracted model disagree (extension modes): ' + log[-800:])
+        return dis
+
+    def search_x(self, offer):
+        """the extension theorems evaluated on the implementation's outputs (no model needed)"""
+        xc = getattr(self, 'xc', None)
+        if xc is None or getattr(self, 'xres', None) is None:
+            return
+        if getattr(self, 'ximpl', None) is None or any(v is None for v in self.ximpl):
+            self.ximpl = [x_canon_impl(cs, r)[0] for cs, r in zip(xc, self.xres)]
+
+        def describe(cs):
+            t = cs['truth']
+            strand = 'rev' if t['reverse'] else 'fwd'
+            if cs['kind'] == 'nla_no':
+                return ('no_overhang fragment (%s strand, %d clipped cycles) next to the CATG at %d of a %d-base contig'
+                        % (strand, t['clip'], t['p'], cs['L'])), strand
+            return ('%s fragment (%s strand, mate: %s, size %r, max_fragment_size %r)'
+                    % (cs['kind'], strand, t.get('pair'), t.get('size'), cs.get('maxfs'))), strand
+        for i, cs in enumerate(xc):
+            if 'truth' not in cs:
+                continue
+            e, im = self.x_expectation(cs), self.ximpl[i]
+            if e is None:
+                continue
+            what, strand = describe(cs)
+            pre = any(r is not None and r['qcfail'] for r in cs['reads'])
+            allq = all(r['qcfail'] for r in cs['reads'] if r is not None)
+            if e == 'rejected':
+                ok = isinstance(im, dict) and im['DS'] is None and im['valid'] is False and im['RR'] is not None and (im['qc'] or allq)
+                if not ok:
+                    offer('x:%s:reject:%s' % (cs['kind'], strand), cs, what + ' without the motif was not rejected: %r' % (im,), im,
+                          'DS absent, not valid, qcfail')
+                continue
+            bad = not isinstance(im, dict) or im['DS'] != e['site'] or im['loc'] != e['site'] or im['RS'] != e['RS'] \
+                or im['cut_strand'] != e['cut'] or im['RZ'] != e['RZ']
+            if bad:
+                offer('x:%s:site:%s' % (cs['kind'], strand), cs, what + ': observed %r, expected site %r' % (im, e), im, e)
+            elif e['valid'] is not None and im['valid'] != e['valid']:
+                offer('x:%s:size:%s' % (cs['kind'], strand), cs,
+                      what + ': is_valid() = %r, expected %r (rejected iff size > max_fragment_size)' % (im['valid'], e['valid']), im, e)
+        # mirror relation
+        n = self.xn
+        for k in range(n):
+            cs = xc[k]
+            if not self.x_mirror_applies(cs):
+                continue
+            a, b = self.ximpl[k], self.ximpl[n + k]
+            L, w = cs['L'], (1 if cs['kind'] == 'chic' else 4)
+            if isinstance(a, dict):
+                exp = {'DS': None if a['DS'] is None else L - w - a['DS'], 'RS': None if a['RS'] is None else not a['RS'],
+                       'RZ': a['RZ'] if cs['kind'] == 'nla_no' or a['RZ'] is None else revcomp(a['RZ']), 'qc': a['qc'], 'valid': a['valid'],
+                       'loc': None if a['loc'] is None else L - w - a['loc'],
+                       'cut_strand': None if a['cut_strand'] is None else not a['cut_strand']}
+                got = {x: b[x] for x in exp} if isinstance(b, dict) else b
+            else:
+                exp, got = a, b
+            if cs.get('maxfs') is not None and isinstance(exp, dict) and isinstance(got, dict) and not exp['valid'] and not got['valid']:
+                exp, got = dict(exp, qc='free'), dict(got, qc='free')
+            if got != exp:
+                offer('x:%s:mirror' % cs['kind'], cs,
+                      '%s fragment%s and its mirror image on the reverse-complemented contig (L=%d) do not get mirrored sites / the same verdict: '
+                      'original %r, mirrored %r, expected %r' % (cs['kind'], '' if cs.get('maxfs') is None else ' (max_fragment_size=%d)' % cs['maxfs'],
+                                                                 L, a, got, exp), {'original': a, 'mirrored': got}, exp)
+        # command lines
+        for l, cr in zip(getattr(self, 'xclis', []), getattr(self, 'xcli_res', [])):
+            cmd = 'bamtagmultiome.py -method %s %s%s' % (l['method'], ' '.join(l['flags']), ' -ref <fasta>' if l['ref'] else '')
+            if 'error' in cr:
+                self.witnesses.append({'key': 'xcli:error', 'what': cmd + ' raised ' + cr['error'], 'input': l['flags']})
+                continue
+            for nn, k in enumerate(l['idx']):
+                cs = xc[k]
+                e, got = self.x_expectation(cs), cr.get('f%04d' % nn)
+                if e is None:
+                    continue
+                if e == 'rejected':
+                    if got is None or any(v['DS'] is not None or not v['qcfail'] for v in got.values()):
+                        offer('xcli:%s:reject' % l['method'], cs, '`%s` did not reject a fragment without the motif: %r' % (cmd, got), got, None)
+                    continue
+                exp = {'DS': e['site'], 'RS': int(e['RS']), 'RZ': e['RZ']}
+                seen = None if got is None else [{'DS': v['DS'], 'RS': v['RS'], 'RZ': canon_rz(cs, v['RZ'])} for v in got.values()]
+                if seen is None or any(v != exp for v in seen):
+                    offer('xcli:%s:site' % l['method'], cs, '`%s` tagged the reads %r, expected %r' % (cmd, got, exp), got, exp)
+                elif e['valid'] is not None and any(v['qcfail'] != (not e['valid']) for v in got.values()):
+                    offer('xcli:%s:size' % l['method'], cs, '`%s`: fragment of size %r written with qcfail=%r, expected qcfail=%r'
+                          % (cmd, cs['truth'].get('size'), [v['qcfail'] for v in got.values()], not e['valid']), got, exp)
 
     def in_scope(self, cs):
         """the simulated case satisfies the hypotheses of one of the theorems (site / shift / rejection)"""
@@ -1075,9 +2107,14 @@ class Prop(fw.PropBase):
             self.L, self.off, self.n_plain = L, len(corpus), len(cases)
             bam_payload = [{'id': lib['id'], 'kind': lib['kind'], 'cfg': cfg_kwargs(lib['kind'], lib['c']),
                             'cases': [self.payload_case(cases[k]) for k in lib['idx']]} for lib in self.libs]
+            self.make_xcases()
             out = fw.run_impl('impl_c09.py', {'cases': [self.payload_case(c) for c in self.allc], 'bam': bam_payload,
-                                              'mol': self.mol_payload(cases, mirrored), 'cli': self.cli_payload(cases)})
-            self.res, self.bam_res, self.mol_res, self.cli_res = out['cases'], out['bam'], out['mol'], out['cli']
+                                              'mol': self.mol_payload(cases, mirrored),
+                                              'cli': self.cli_payload(cases) + self.xcli_payload(),
+                                              'x': [self.x_payload(c) for c in self.xc]})
+            self.res, self.bam_res, self.mol_res = out['cases'], out['bam'], out['mol']
+            self.cli_res, self.xcli_res, self.xres = out['cli'][:len(self.clis)], out['cli'][len(self.clis):], out['x']
+            self.ximpl = None
         if getattr(self, 'impl', None) is None:
             self.impl = [canon_impl(cs, r)[0] for cs, r in zip(self.allc, self.res)]
         best = {}
@@ -1205,6 +2242,12 @@ class Prop(fw.PropBase):
             if bad and (key not in best or sz < best[key][0]):
                 best[key] = (sz, {'key': key, 'what': bad, 'input': inp,
                                   'impl': {'original': a.get('tags'), 'mirrored': b.get('tags')}})
+        def xoffer(key, cs, what, im, exp):
+            w = {'key': key, 'what': what, 'input': self.x_payload(cs), 'truth': cs.get('truth'), 'impl': im, 'expected': exp}
+            sz = size(cs) + (len(cs['ref']) if cs.get('ref') else 0) // 10
+            if key not in best or sz < best[key][0]:
+                best[key] = (sz, w)
+        self.search_x(xoffer)
         for p in getattr(self, 'problems', [])[:1]:
             self.witnesses.append({'key': 'observation', 'what': '; '.join(p['problems']), 'input': p['input']})
         for key in sorted(best):
